@@ -42,7 +42,12 @@ type Ctx struct {
 }
 
 func (c *Ctx) NewSim(cfg SimCfg, pol *Policy) *Sim {
+	if c.Prop == "C02" || c.Prop == "C03" {
+		// spec mode: one transaction per batch so that the state before and after every transaction is observed
+		pol.Batch = "single"
+	}
 	s := NewSim(cfg, pol, vh.Mix(c.Seed, c.Fam.Name, c.Idx, len(c.sims)), c.Rep)
+	s.spec = c.Prop == "C02" || c.Prop == "C03"
 	s.logOn = c.LogOn
 	c.sims = append(c.sims, s)
 	return s
